@@ -35,6 +35,16 @@ CHECKS = {
    text="Pool: lg_k {4,5,6,8} x {Empty, Sparse(1), Sparse(max), Hybrid, Pinned, Sliding offset 1/9/40} x up to 4 pair orders (column-major, diagonal, high-columns-first, row-major) x {fresh, serialize round trip, previous union result}. Zero inputs, every single member and every ordered pair are fed to a real CpcUnion for every union lg_k in {4,5,6,8,10}, plus a BFS to depth 5 (7 thorough) over a reduced pool of 10 spanning every flavor and lg relation. After every step to_sketch() is taken: union lg_k == min, num_coupons == popcount(OR of folded reference matrices), result matrix == that OR, validate(), window offset / flavor / first_interesting_column consistent, merged flag set, image has no HIP section and deserializes to the same matrix and estimate; merged arrivals (orders, repetitions) must give identical results.",
    note="Pool members are built through the row/col hook from known pair lists; thorough adds lg_k 7,10,12 and union lg_k 12,14.",
    design="3/C06"),
+ "C11": dict(
+   technique="observer on the explicit-state / deviation-bounded family explorers: round trip, query equality, byte-identical re-serialization and one-step bisimulation (updates + merges) at every visited state; exhaustive compact-theta entry-set enumeration",
+   text="At every state visited by the (reduced-bound) C02/C03/C04/C05/C06 explorations the real deserialize(serialize(s)) must succeed, answer every query bit-identically, hold the same in-memory content (hook dump), re-serialize byte-identically, stay identical after each op of a continuation alphabet (one-step bisimulation at every node of a graph closed under the alphabet) and give identical union results; CpcWrapper must agree with full deserialization. Compact theta: all entry sets with delta width 1..=63 x lengths {0..=40,248..=264,4095..4097} x 12 delta patterns x exact/estimating x ordered/unordered through serialize (v3) and serialize_compressed (v4).",
+   note="Families covered are listed in the evidence notes (HLL, Theta, CPC, plus the hook-less families as their explorers are merged). HIP accumulators of in-order union gadgets fed from coupon tables are not compared (legitimately order dependent).",
+   design="3/C11"),
+ "C12": dict(
+   technique="observer on the family explorers: an independent decoder written from the cross-language layout must recover the hook dump / reference state from serialize() at every visited state",
+   text="At every state visited by the (reduced-bound) explorations the emitted image is decoded by the harness's own spec decoder (never the library's deserialize) and compared field by field with the in-memory state read through the hooks and with the reference model: HLL (preamble, flags, coupons, nibble/6-bit/byte registers, cur_min, aux area by compact flag, hip/kxq, size formulas), compact Theta v3/v4 (preLongs by case, flags, seed hash, theta, entries, MSB-first delta bit stream, sizes), CPC (preInts by flag combination, field order incl. both HIP positions, stream lengths, flags vs flavor, numSv, kxp/hip).",
+   note="Trusted base: my transcription of the Java/C++ layouts (DESIGN Appendix A). CPC compressed payload: see evidence notes for whether the independent decompressor is active.",
+   design="3/C12"),
 }
 NOT_BUILT = "check not built yet in this session (planned in DESIGN.md section 3); not claimed until it exists"
 def main():
